@@ -1,12 +1,16 @@
 #!/usr/bin/env python3
 """Maintainer tool: write spec/rule_formulas.json from the current tree (to be REVIEWED against the rule texts
 before committing; the check never writes this file)."""
-import glob, json, os, sys
+import glob, json, os, sys, subprocess
 HERE = os.path.dirname(os.path.dirname(os.path.abspath(__file__)))
 sys.path.insert(0, HERE)
 from rules.facts import Facts
 from rules import grules, guards
-fp = sorted(glob.glob(os.path.join(HERE, ".cache", "facts-*.json")), key=os.path.getmtime)[-1]
+import importlib.machinery, importlib.util
+loader = importlib.machinery.SourceFileLoader("chk", os.path.join(HERE, "check"))
+spec_ = importlib.util.spec_from_loader("chk", loader); chk = importlib.util.module_from_spec(spec_); loader.exec_module(chk)
+assert subprocess.run(["git", "-C", "/repo", "status", "--porcelain", "--", "src"], capture_output=True, text=True).stdout.strip() == "", "/repo/src is modified"
+fp, fresh, secs = chk.ensure_facts("/repo")
 F = Facts(fp)
 tms, ft = grules.models(F)
 out = {}
@@ -24,3 +28,11 @@ json.dump({"comment": "reference guard formulas per (type, code); reviewed again
                       "comments of the rule functions; compared by logical equivalence only", "types": out},
           open(os.path.join(HERE, "spec", "rule_formulas.json"), "w"), indent=1)
 print("wrote", n, "formulas")
+
+from rules import v4
+tabs = v4.current_tables(F)
+json.dump({"comment": "reference code tables of the message types, reviewed against the SR2025 rule texts quoted in "
+                      "the repository (T47/T48/T36 code lists, D67 combinations, D98 order)",
+           "tables": {k: {"ordered": v["ordered"], "value": v["value"]} for k, v in sorted(tabs.items())}},
+          open(os.path.join(HERE, "spec", "code_tables.json"), "w"), indent=1)
+print("wrote", len(tabs), "tables")
